@@ -598,9 +598,9 @@ def rejections(ctx):
     shp[ax] += 1
     attempt("C02.reject.shape", vals((*shp, nvdim)), f"array shape {(*shp, nvdim)}")
     attempt("C02.reject.shape", vals((2, *n, nvdim)), "array with an extra leading axis (2)")
-    if int(np.prod(n)) >= 2 and nd >= 2:
-        attempt("C02.reject.shape", vals((int(np.prod(n)) * 1, nvdim))
-                if n[-1] != int(np.prod(n)) else vals((*shp, nvdim)), "flattened cells")
+    if sum(1 for k in n if k >= 2) >= 2:
+        # all cells in one flat axis: longer than every mesh axis, cannot be meant per cell
+        attempt("C02.reject.shape", vals((int(np.prod(n)), nvdim)), "flattened cells")
     if nvdim == 1:
         attempt("C02.reject.shape", vals(tuple(shp)), f"scalar-field array shape {tuple(shp)}")
 
